@@ -88,18 +88,19 @@ def isMmap : Kind → Bool
 
 def Heap.ref (h : Heap) (b k c : Nat) : Prop := aget (h.bms b) k = some c
 
-/-- `Iso`: (i) a container reachable from two places is frozen, stores are never shared;
+/-- `Iso` (bitmap ids are only an allocation counter: every entry of the bitmap table is covered,
+unused ones are empty): (i) a container reachable from two places is frozen, stores are never shared;
 (ii) is the shape of `Prim.write` (it thaws first) together with `frozenHeap`/`mappedOk`;
 (iii) a reachable container with mapped data lies in a live region owned by the bitmap reaching it. -/
 structure Inv (h : Heap) : Prop where
-  contLt : ∀ b k c, b < h.nB → h.ref b k c → c < h.nC
+  contLt : ∀ b k c, h.ref b k c → c < h.nC
   storeLt : ∀ c, c < h.nC → (h.conts c).store < h.nS
   storeInj : ∀ c₁ c₂, c₁ < h.nC → c₂ < h.nC → (h.conts c₁).store = (h.conts c₂).store → c₁ = c₂
-  shared : ∀ b₁ k₁ b₂ k₂ c, b₁ < h.nB → b₂ < h.nB → h.ref b₁ k₁ c → h.ref b₂ k₂ c →
+  shared : ∀ b₁ k₁ b₂ k₂ c, h.ref b₁ k₁ c → h.ref b₂ k₂ c →
       (b₁ ≠ b₂ ∨ k₁ ≠ k₂) → (h.conts c).frozen = true
   frozenHeap : ∀ c, c < h.nC → (h.conts c).frozen = true → h.kindOf c = .heap
   mappedOk : ∀ c, c < h.nC → (h.conts c).mapped = isMmap (h.kindOf c)
-  region : ∀ b k c g, b < h.nB → h.ref b k c → h.kindOf c = .mmap g →
+  region : ∀ b k c g, h.ref b k c → h.kindOf c = .mmap g →
       h.live g = true ∧ h.owner g = b ∧ g < h.nR
 
 /-- The value of bitmap `b` at key `k`. -/
@@ -107,5 +108,228 @@ def Heap.absAt (h : Heap) (b k : Nat) : Option (List Nat) := (aget (h.bms b) k).
 
 theorem inv_empty : Inv Heap.empty := by
   constructor <;> intros <;> simp_all [Heap.empty, Heap.ref, aget]
+
+
+/-- Type A: only the bitmap table changes; every reference of the new table is an old reference
+(same bitmap, same key) or goes to a frozen container. -/
+theorem inv_bms (h : Heap) (hi : Inv h) (bms' : Nat → AList) (nB' : Nat)
+    (H : ∀ b k c, aget (bms' b) k = some c →
+        aget (h.bms b) k = some c ∨ (c < h.nC ∧ (h.conts c).frozen = true)) :
+    Inv { h with bms := bms', nB := nB' } := by
+  obtain ⟨h1, h2, h3, h4, h5, h6, h7⟩ := hi
+  refine ⟨?_, h2, h3, ?_, h5, h6, ?_⟩
+  · intro b k c hr
+    rcases H b k c hr with hr' | ⟨hc, _⟩
+    · exact h1 b k c hr'
+    · exact hc
+  · intro b₁ k₁ b₂ k₂ c hr₁ hr₂ hne
+    rcases H b₁ k₁ c hr₁ with hr₁' | ⟨_, hf⟩
+    · rcases H b₂ k₂ c hr₂ with hr₂' | ⟨_, hf⟩
+      · exact h4 b₁ k₁ b₂ k₂ c hr₁' hr₂' hne
+      · exact hf
+    · exact hf
+  · intro b k c g hr hk
+    rcases H b k c hr with hr' | ⟨hc, hf⟩
+    · exact h7 b k c g hr' hk
+    · have := h5 c hc hf
+      simp only [Heap.kindOf] at this hk
+      rw [this] at hk
+      cases hk
+
+
+
+/-- Type B: a new container object with a new store, referenced at (b,k) only. -/
+theorem inv_newCont (h : Heap) (hi : Inv h) (b k : Nat) (v : List Nat) (kd : Kind)
+    (hk : ∀ g, kd = .mmap g → h.live g = true ∧ h.owner g = b ∧ g < h.nR) :
+    Inv { h with stores := upd h.stores h.nS ⟨v, kd⟩, nS := h.nS + 1,
+                 conts := upd h.conts h.nC ⟨h.nS, false, isMmap kd⟩, nC := h.nC + 1,
+                 bms := upd h.bms b (aput (h.bms b) k h.nC) } := by
+  obtain ⟨h1, h2, h3, h4, h5, h6, h7⟩ := hi
+  have refOld : ∀ b' k' c', aget (upd h.bms b (aput (h.bms b) k h.nC) b') k' = some c' →
+      (b' = b ∧ k' = k ∧ c' = h.nC) ∨ aget (h.bms b') k' = some c' := by
+    intro b' k' c' hr
+    simp only [upd] at hr
+    split at hr
+    · rename_i e; subst e
+      rw [aget_aput] at hr
+      split at hr
+      · rename_i e; left; exact ⟨rfl, e, (Option.some.inj hr).symm⟩
+      · right; exact hr
+    · right; exact hr
+  constructor
+  · intro b' k' c' hr
+    rcases refOld b' k' c' hr with ⟨_, _, e⟩ | hr'
+    · simp [e]
+    · have := h1 b' k' c' hr'; show c' < h.nC + 1; omega
+  · intro c hc
+    simp only [upd]
+    split
+    · simp
+    · rename_i e
+      have hc' : c < h.nC + 1 := hc
+      have := h2 c (by omega)
+      show (h.conts c).store < h.nS + 1
+      omega
+  · intro c₁ c₂ hc₁ hc₂ he
+    simp only [upd] at he
+    simp only at hc₁ hc₂
+    split at he <;> split at he
+    · omega
+    · rename_i e1 e2
+      have := h2 c₂ (by omega); simp only at he; omega
+    · rename_i e1 e2
+      have := h2 c₁ (by omega); simp only at he; omega
+    · exact h3 c₁ c₂ (by omega) (by omega) he
+  · intro b₁ k₁ b₂ k₂ c hr₁ hr₂ hne
+    rcases refOld b₁ k₁ c hr₁ with ⟨e1, e2, e3⟩ | hr₁'
+    · rcases refOld b₂ k₂ c hr₂ with ⟨f1, f2, f3⟩ | hr₂'
+      · subst e1 e2 f1 f2; rcases hne with hne | hne <;> exact absurd rfl hne
+      · have := h1 b₂ k₂ c hr₂'; omega
+    · rcases refOld b₂ k₂ c hr₂ with ⟨f1, f2, f3⟩ | hr₂'
+      · have := h1 b₁ k₁ c hr₁'; omega
+      · have hc := h1 b₁ k₁ c hr₁'
+        have := h4 b₁ k₁ b₂ k₂ c hr₁' hr₂' hne
+        simp only [upd]
+        split
+        · omega
+        · exact this
+  · intro c hc hf
+    simp only [Heap.kindOf, upd] at hf ⊢
+    simp only at hc
+    split at hf
+    · simp at hf
+    · rename_i e
+      have hc' : c < h.nC := by omega
+      have hs := h2 c hc'
+      have : ¬ (h.conts c).store = h.nS := by omega
+      simp only [e, if_false, this]
+      exact h5 c hc' hf
+  · intro c hc
+    simp only [Heap.kindOf, upd]
+    simp only at hc
+    split
+    · simp
+    · rename_i e
+      have hc' : c < h.nC := by omega
+      have hs := h2 c hc'
+      have : ¬ (h.conts c).store = h.nS := by omega
+      simp only [this, if_false]
+      exact h6 c hc'
+  · intro b' k' c' g hr hkd
+    rcases refOld b' k' c' hr with ⟨e1, e2, e3⟩ | hr'
+    · subst e3
+      simp only [Heap.kindOf, upd, if_true] at hkd
+      have := hk g hkd
+      rw [e1]; exact this
+    · have hc' := h1 b' k' c' hr'
+      have hs := h2 c' hc'
+      simp only [Heap.kindOf, upd] at hkd
+      have e : ¬ c' = h.nC := by omega
+      have e2 : ¬ (h.conts c').store = h.nS := by omega
+      simp only [e, if_false, e2] at hkd
+      exact h7 b' k' c' g hr' hkd
+
+
+
+/-- Type C: container `c` keeps its identity and gets a new store of kind `kd`. -/
+def Heap.moved (h : Heap) (c : Nat) (v : List Nat) (kd : Kind) (fr : Bool) : Heap :=
+  { h with stores := upd h.stores h.nS ⟨v, kd⟩, nS := h.nS + 1,
+           conts := upd h.conts c ⟨h.nS, fr, isMmap kd⟩ }
+
+theorem moved_kind_same (h : Heap) (c : Nat) (v : List Nat) (kd : Kind) (fr : Bool) :
+    (h.moved c v kd fr).kindOf c = kd := by
+  simp [Heap.moved, Heap.kindOf, upd]
+
+theorem moved_kind_ne (h : Heap) (hs : ∀ c, c < h.nC → (h.conts c).store < h.nS)
+    (c : Nat) (v : List Nat) (kd : Kind) (fr : Bool) (c' : Nat) (hc' : c' < h.nC) (e : c' ≠ c) :
+    (h.moved c v kd fr).kindOf c' = h.kindOf c' := by
+  have := hs c' hc'
+  have e2 : ¬ (h.conts c').store = h.nS := by omega
+  simp [Heap.moved, Heap.kindOf, upd, e, e2]
+
+theorem moved_cont_same (h : Heap) (c : Nat) (v : List Nat) (kd : Kind) (fr : Bool) :
+    (h.moved c v kd fr).conts c = ⟨h.nS, fr, isMmap kd⟩ := by simp [Heap.moved, upd]
+
+theorem moved_cont_ne (h : Heap) (c : Nat) (v : List Nat) (kd : Kind) (fr : Bool) (c' : Nat) (e : c' ≠ c) :
+    (h.moved c v kd fr).conts c' = h.conts c' := by simp [Heap.moved, upd, e]
+
+theorem inv_moveCont (h : Heap) (hi : Inv h) (c : Nat) (hc : c < h.nC) (v : List Nat) (kd : Kind) (fr : Bool)
+    (hfr : fr = true → kd = .heap)
+    (hfr2 : fr = true ∨ (h.conts c).frozen = false)
+    (hk : ∀ g, kd = .mmap g → h.live g = true ∧ g < h.nR ∧
+            ∀ b k, aget (h.bms b) k = some c → h.owner g = b) :
+    Inv (h.moved c v kd fr) := by
+  obtain ⟨h1, h2, h3, h4, h5, h6, h7⟩ := hi
+  constructor
+  · exact h1
+  · intro c' hc'
+    by_cases e : c' = c
+    · subst e; rw [moved_cont_same]; show h.nS < h.nS + 1; omega
+    · rw [moved_cont_ne _ _ _ _ _ _ e]; have := h2 c' hc'; show _ < h.nS + 1; omega
+  · intro c₁ c₂ hc₁ hc₂ he
+    by_cases e1 : c₁ = c <;> by_cases e2 : c₂ = c
+    · rw [e1, e2]
+    · subst e1; rw [moved_cont_same, moved_cont_ne _ _ _ _ _ _ e2] at he
+      have := h2 c₂ hc₂; simp only at he; omega
+    · subst e2; rw [moved_cont_same, moved_cont_ne _ _ _ _ _ _ e1] at he
+      have := h2 c₁ hc₁; simp only at he; omega
+    · rw [moved_cont_ne _ _ _ _ _ _ e1, moved_cont_ne _ _ _ _ _ _ e2] at he
+      exact h3 c₁ c₂ hc₁ hc₂ he
+  · intro b₁ k₁ b₂ k₂ c' hr₁ hr₂ hne
+    have := h4 b₁ k₁ b₂ k₂ c' hr₁ hr₂ hne
+    by_cases e : c' = c
+    · subst e; rw [moved_cont_same]
+      rcases hfr2 with e | e
+      · exact e
+      · rw [e] at this; cases this
+    · rw [moved_cont_ne _ _ _ _ _ _ e]; exact this
+  · intro c' hc' hf
+    by_cases e : c' = c
+    · subst e; rw [moved_cont_same] at hf; rw [moved_kind_same]; exact hfr hf
+    · rw [moved_cont_ne _ _ _ _ _ _ e] at hf
+      rw [moved_kind_ne h h2 _ _ _ _ _ hc' e]; exact h5 c' hc' hf
+  · intro c' hc'
+    by_cases e : c' = c
+    · subst e; rw [moved_cont_same, moved_kind_same]
+    · rw [moved_cont_ne _ _ _ _ _ _ e, moved_kind_ne h h2 _ _ _ _ _ hc' e]; exact h6 c' hc'
+  · intro b' k' c' g hr hkd
+    by_cases e : c' = c
+    · subst e; rw [moved_kind_same] at hkd
+      obtain ⟨a1, a2, a3⟩ := hk g hkd
+      exact ⟨a1, a3 b' k' hr, a2⟩
+    · have hc'' := h1 b' k' c' hr
+      rw [moved_kind_ne h h2 _ _ _ _ _ hc'' e] at hkd
+      exact h7 b' k' c' g hr hkd
+
+/-- Type D: only values change (kinds stay). -/
+theorem inv_stores (h : Heap) (hi : Inv h) (st' : Nat → Store)
+    (H : ∀ s, (st' s).kind = (h.stores s).kind) : Inv { h with stores := st' } := by
+  obtain ⟨h1, h2, h3, h4, h5, h6, h7⟩ := hi
+  refine ⟨h1, h2, h3, h4, ?_, ?_, ?_⟩
+  · intro c hc hf; simp only [Heap.kindOf, H]; exact h5 c hc hf
+  · intro c hc; simp only [Heap.kindOf, H]; exact h6 c hc
+  · intro b k c g hr hk; simp only [Heap.kindOf, H] at hk; exact h7 b k c g hr hk
+
+/-- Type E1: a new live region. -/
+theorem inv_newRegion (h : Heap) (hi : Inv h) (b : Nat) :
+    Inv { h with live := upd h.live h.nR true, owner := upd h.owner h.nR b, nR := h.nR + 1 } := by
+  obtain ⟨h1, h2, h3, h4, h5, h6, h7⟩ := hi
+  refine ⟨h1, h2, h3, h4, h5, h6, ?_⟩
+  intro b' k c g hr hk
+  obtain ⟨a1, a2, a3⟩ := h7 b' k c g hr hk
+  have : ¬ g = h.nR := by omega
+  simp only [upd, this, if_false]
+  exact ⟨a1, a2, by omega⟩
+
+/-- Type E2: unmapping regions nothing refers to. -/
+theorem inv_kill (h : Heap) (hi : Inv h) (live' : Nat → Bool)
+    (H : ∀ b k c g, aget (h.bms b) k = some c → h.kindOf c = .mmap g → live' g = h.live g) :
+    Inv { h with live := live' } := by
+  obtain ⟨h1, h2, h3, h4, h5, h6, h7⟩ := hi
+  refine ⟨h1, h2, h3, h4, h5, h6, ?_⟩
+  intro b k c g hr hk
+  obtain ⟨a1, a2, a3⟩ := h7 b k c g hr hk
+  exact ⟨by show live' g = true; rw [H b k c g hr hk]; exact a1, a2, a3⟩
+
 
 end PV.C03
